@@ -150,6 +150,14 @@ func genConsume(prop string, seed uint64) *Plan {
 	movesN := int(g.rng(0, 5))
 	switch prop {
 	case "C04", "C14", "C13", "C41":
+		if prop == "C04" && g.pct(40) {
+			// hooks that take time while a fetch response is being
+			// processed, leader moves meanwhile
+			k["cb_sleep_pct"] = g.pick(10, 40)
+			k["cb_sleep_us_max"] = g.pick(3000, 100000, 1000000)
+			movesN = int(g.rng(3, 10))
+			k["meta_max_ms"] = g.pick(300, 1000)
+		}
 		g.P.Actors = append(g.P.Actors, g.plainProducer("w0", topics, nparts, int(g.rng(20, 150)), false))
 		if g.pct(40) {
 			k["read_committed"] = 1
